@@ -387,6 +387,13 @@ def main(argv=None):
                     r = nres[n['bin']]
                     native_results[n['bin']] = (n, r)
                     log('[native] bounded  %-40s %-9s %.1fs cases=%d' % (n['bin'], r.status, r.time_s, r.cases))
+                    for (tag, text) in r.findings:
+                        ob = 'native.%s.%s' % (n['bin'], tag)
+                        payload = {'property_id': pid, 'obligation': ob, 'violation': True,
+                                   'verifier_output': 'bounded stand-in %s reports a concrete deviation from the property text:\n%s' % (n['bin'], text),
+                                   'counterexample': {'kind': 'native', 'bin': n['bin'], 'output': text, 'reproduced_on_real_code': True}}
+                        failures.append({'obligation': ob, 'fn': n['bin'], 'kind': 'native', 'message': text, 'rendered': text, 'label': tag,
+                                         'safety': True, 'at': 'bounded/src/bin/%s.rs' % n['bin'], 'unit': 'native', '_payload': payload})
                     if r.status == 'undecided':
                         undecided.append('native stand-in %s: %s' % (n['bin'], r.output[-400:]))
                     elif r.status == 'failed':
